@@ -287,6 +287,8 @@ static int client_receive(struct client *client, struct ctl *ctl)
 
     switch (req->type) {
     case ctl_proto_type_get_attr_req:
+	/* the name comes from the client, and may lack termination */
+	req->get_attr_req.attr_name[XCM_ATTR_NAME_MAX - 1] = '\0';
 	process_get_attr(ctl->socket, &(req->get_attr_req), res);
 	break;
     case ctl_proto_type_get_all_attr_req:
